@@ -11,9 +11,10 @@
 //! No thread pool is installed, so `ShardedHashTable::default()` has one shard and the physical
 //! row order is the staging order (deterministic).
 use egglog_core_relations::{
-    ColumnId, Constraint, Database, DisplacedTable, Offset, SortedWritesTable, Table, TableId,
-    TaggedRowBuffer, Value, WrappedTable,
+    ColumnId, Constraint, Database, DisplacedTable, Offset, QueryEntry, RuleSetBuilder, SortedWritesTable,
+    Table, TableId, TaggedRowBuffer, Value, WrappedTable,
 };
+use egglog_reports::ReportLevel;
 use egglog_numeric_id::NumericId;
 use std::collections::{BTreeMap, HashSet};
 use std::panic::{catch_unwind, AssertUnwindSafe};
@@ -109,6 +110,9 @@ pub enum Op {
     ScanC(Vec<Cn>),
     Fast(Cn),
     Stat,
+    /// one-atom RuleSet query `T(x..) under cs => Out(x..)` (an index-backed read), followed by the
+    /// `merge_all` that `run_rule_set` performs; for the Gallina model this is just `OMerge`
+    Query(Vec<Cn>),
 }
 fn nat_list(v: &[u32]) -> String {
     coq_list(v, |x| x.to_string())
@@ -128,10 +132,12 @@ impl Op {
             Op::ScanC(cs) => format!("OScanC {}", coq_list(cs, |c| c.coq())),
             Op::Fast(c) => format!("OFast ({})", c.coq()),
             Op::Stat => "OStat".into(),
+            Op::Query(_) => "OMerge".into(),
         }
     }
     fn name(&self) -> &'static str {
         match self {
+            Op::Query(_) => "query",
             Op::Ins(_) => "ins",
             Op::Rem(_) => "rem",
             Op::Merge => "merge",
@@ -150,6 +156,7 @@ impl Op {
             Op::Get(r) => format!("[\"get\",{}]", json_list(r)),
             Op::ScanC(cs) => format!("[\"scanc\",[{}]]", cs.iter().map(|c| c.json()).collect::<Vec<_>>().join(",")),
             Op::Fast(c) => format!("[\"fast\",{}]", c.json()),
+            Op::Query(cs) => format!("[\"query\",[{}]]", cs.iter().map(|c| c.json()).collect::<Vec<_>>().join(",")),
             o => format!("[\"{}\"]", o.name()),
         }
     }
@@ -165,6 +172,7 @@ impl Op {
             "scan" => Op::Scan,
             "scanc" => Op::ScanC(a[1].as_array().unwrap().iter().map(Cn::from_json).collect()),
             "fast" => Op::Fast(Cn::from_json(&a[1])),
+            "query" => Op::Query(a[1].as_array().unwrap().iter().map(Cn::from_json).collect()),
             _ => Op::Stat,
         }
     }
@@ -363,6 +371,7 @@ pub struct Outcome {
     fast_none: usize,
     panicked_merge: bool,
     read_panics: usize,
+    queries: usize,
 }
 
 fn vals(v: &[u32]) -> Vec<Value> {
@@ -432,6 +441,12 @@ pub fn run_sorted(c: &SCase) -> Outcome {
         }),
     );
     let id: TableId = db.add_table(table, std::iter::empty(), std::iter::empty());
+    // result table of the one-atom queries (every column is a key)
+    let out_id: TableId = db.add_table(
+        SortedWritesTable::new(ncols, ncols, None, vec![], Box::new(|_, _, _, _| false)),
+        std::iter::empty(),
+        std::iter::empty(),
+    );
     // oracle: a plain map
     let mut map: BTreeMap<Vec<u32>, Vec<u32>> = BTreeMap::new();
     let mut pins: Vec<Vec<u32>> = vec![];
@@ -456,9 +471,46 @@ pub fn run_sorted(c: &SCase) -> Outcome {
                 drop(b);
                 prem.push(key.clone());
             }
-            Op::Merge => {
+            Op::Merge | Op::Query(_) => {
                 let before = db.get_table(id).version().major.index();
-                let res = catch_unwind(AssertUnwindSafe(|| db.merge_all()));
+                let res = if let Op::Query(cs) = op {
+                    // expected answer: the map as it is before the merge that run_rule_set ends with
+                    let mut want: Vec<Vec<u32>> = map.values().filter(|r| cs.iter().all(|c| c.eval(r))).cloned().collect();
+                    want.sort();
+                    let real: Vec<Constraint> = cs.iter().map(|c| c.real()).collect();
+                    let res = catch_unwind(AssertUnwindSafe(|| {
+                        let mut rsb = RuleSetBuilder::new(&mut db);
+                        let mut q = rsb.new_rule();
+                        let entries: Vec<QueryEntry> = (0..ncols).map(|_| q.new_var().into()).collect();
+                        if q.add_atom(id, &entries, &real).is_err() {
+                            return None;
+                        }
+                        let mut rb = q.build();
+                        if rb.insert(out_id, &entries).is_err() {
+                            return None;
+                        }
+                        rb.build();
+                        let rs = rsb.build();
+                        db.run_rule_set(&rs, ReportLevel::TimeOnly, None);
+                        let o = db.get_table(out_id);
+                        let all = o.all();
+                        Some(dump(&o.scan(all.as_ref())))
+                    }));
+                    match res {
+                        Ok(Some(rows)) => {
+                            out.queries += 1;
+                            if sorted_rows(&rows) != want {
+                                viol(&mut out, k, format!("one-atom query under {cs:?} derives {:?}, the map gives {:?}", sorted_rows(&rows), want));
+                            }
+                            db.clear_table(out_id);
+                            Ok(true)
+                        }
+                        Ok(None) => catch_unwind(AssertUnwindSafe(|| db.merge_all())),
+                        Err(e) => Err(e),
+                    }
+                } else {
+                    catch_unwind(AssertUnwindSafe(|| db.merge_all()))
+                };
                 if res.is_err() {
                     // the table's own assertion on the sort order (caller contract); the sequence ends
                     out.panicked_merge = true;
@@ -811,8 +863,13 @@ fn gen_sorted(r: &mut Rng, thorough: bool) -> SCase {
             if r.chance(3, 5) {
                 ts += r.range(1, 2) as u32;
             }
-        } else if p < pm + 2 {
+        } else if p < pm + 1 {
             ops.push(Op::Clear);
+        } else if p < pm + 5 {
+            ops.push(Op::Query((0..r.below(3)).map(|_| gen_cn(r, ncols, sort, vmax, ts)).collect()));
+            if r.chance(3, 5) {
+                ts += r.range(1, 2) as u32;
+            }
         } else {
             ops.push(match r.below(10) {
                 0..=2 => Op::Get(key(r)),
@@ -949,6 +1006,12 @@ pub fn run(o: &Opts) -> i32 {
                             let on = if Some(cn.args().0 as usize) == c.sort { "sortcol" } else { "other" };
                             bump(&mut cn_hist, format!("fast:{}:{}", cn.name(), on), 1);
                         }
+                        Op::Query(cs) => {
+                            for cn in cs {
+                                let on = if Some(cn.args().0 as usize) == c.sort { "sortcol" } else { "other" };
+                                bump(&mut cn_hist, format!("query:{}:{}", cn.name(), on), 1);
+                            }
+                        }
                         _ => {}
                     }
                 }
@@ -972,6 +1035,7 @@ pub fn run(o: &Opts) -> i32 {
         bump(&mut branch_hist, "fast_subset None".into(), out.fast_none);
         bump(&mut branch_hist, "merge panics (sort-order assertion)".into(), out.panicked_merge as usize);
         bump(&mut branch_hist, "read panics".into(), out.read_panics);
+        bump(&mut branch_hist, "one-atom RuleSet queries run".into(), out.queries);
         if samples.len() < 4 && out.nontrivial && nops < 40 {
             samples.push(format!("{{\"case\":{},\"observed\":{:?}}}", case.json(), out.obs));
         }
